@@ -102,7 +102,7 @@ extern "C" void harness() {
             buf[len++] = (unsigned char)('a' + eb[r]);
 #endif
 #if LAB
-            buf[len++] = ws_char(); buf[len++] = (unsigned char)('0' + el[r]);
+            buf[len++] = ws_char(); if (ndb()) buf[len++] = ws_char(); buf[len++] = (unsigned char)('0' + el[r]);   // one or two blanks before the label
 #endif
             if (ndb()) buf[len++] = ws_char();
             ++nedges;
